@@ -11,7 +11,7 @@ import (
 	"hzcheck/esp"
 )
 
-func init() { register("C19", c19Pair, c19Stages, c19Fresh) }
+func init() { register("C19", c19Pair, c19Stages, c19Fresh, c19Idle) }
 
 // C19.fresh — the stage events a finish reports are this request's own: the per-request reset
 // the serve loop calls between two requests of a connection clears the trace statistics.
@@ -374,16 +374,19 @@ func c19Stages(e *Env) {
 				}
 			},
 		}
-		ast.Inspect(fi.Decl, func(n ast.Node) bool {
-			if call, ok := n.(*ast.CallExpr); ok {
-				if f := calleeOf(info, call); esp.Is(f, pkgIStats, "", "Record") && len(call.Args) >= 2 {
-					if _, kind := stageEventArg(info, call.Args[1]); kind == "start" {
-						nStart++
+		for _, hf := range withHelpers(w, fi, 2) {
+			hinfo := hf.Pkg.TypesInfo
+			ast.Inspect(hf.Decl, func(n ast.Node) bool {
+				if call, ok := n.(*ast.CallExpr); ok {
+					if f := calleeOf(hinfo, call); esp.Is(f, pkgIStats, "", "Record") && len(call.Args) >= 2 {
+						if _, kind := stageEventArg(hinfo, call.Args[1]); kind == "start" {
+							nStart++
+						}
 					}
 				}
-			}
-			return true
-		})
+				return true
+			})
+		}
 		ex := esp.New(w, fi, rl)
 		viol := ex.Run(fi)
 		r.Unit("%s: %s — %d stage-start sites, %d states explored, %d exit states", rule, fname, nStart, ex.Steps, ex.Exits)
